@@ -64,10 +64,13 @@ def main():
                     except Exception:  # noqa
                         pass
                     break
-            res["checks"].append({"seed": s, "rc": rc, "lines": lines[:6], "first_replay": replay, "tail": out[-200:]})
+            viol = [l for l in lines if l.startswith("VIOLATION")]
+            res["checks"].append({"seed": s, "rc": rc, "violations": len(viol),
+                                  "lines": viol[:4] + [l for l in lines if not l.startswith("VIOLATION")][:4],
+                                  "first_replay": replay, "tail": out[-200:]})
     finally:
         sh("git -C %s checkout -- sympde" % wt)
-    detected = any(c["rc"] == 1 and any(l.startswith("VIOLATION") for l in c["lines"]) for c in res["checks"])
+    detected = any(c["rc"] == 1 and c["violations"] > 0 for c in res["checks"])
     res["detected"] = detected
     res["confirmed"] = (res["demo_without_change"]["rc"] == 0 and res["demo_with_change"]["rc"] != 0
                         and (not suite or "failed" not in res["suite_with_change"]["tail"].split("passed")[0][-40:]))
